@@ -396,3 +396,32 @@ Example typed_int_slice_trailing_blank :
   parse_string (mk_print []) true true (TSlice (TInt IInt)) (s2r "1, 2") = Ok (VList [VInt 1; VInt 2]) /\
   signed_slice IInt (s2r "1 ,2") = Ok [1; 2]%Z.
 Proof. repeat split; vm_compute; reflexivity. Qed.
+
+(* ------------------------------------------------------------------ *)
+(* encoders: whatever word list they are given (empty words, the empty list),
+   decoding their output is total, and so are the decode-encode-decode pipelines *)
+From Dials Require Import Text.CasePipeline.
+
+Lemma decode_by_total_l d s : total (decode_by d s).
+Proof.
+  unfold decode_by.
+  repeat match goal with |- total (match ?x with _ => _ end _) => destruct x end;
+    auto using decode_upper_camel_total_l, decode_lower_camel_total_l,
+    decode_lower_snake_total_l, decode_upper_snake_total_l, decode_kebab_total_l, decode_cp_snake_total_l,
+    decode_go_camel_total_l, decode_go_tags_total_l.
+Qed.
+
+Lemma encode_then_decode_total_l e d ws : total (decode_by d (encode_by e ws)).
+Proof. apply decode_by_total_l. Qed.
+
+Lemma pipeline_total_l d1 e d2 s : total (pipeline d1 e d2 s).
+Proof.
+  unfold pipeline. pose proof (decode_by_total_l d1 s) as H.
+  destruct (decode_by d1 s) as [ws|c|c]; cbn [obind]; [apply decode_by_total_l|exact H|exact H].
+Qed.
+
+Example encoders_on_empty_words :
+  encode_by 0 [s2r "foo"; []] = s2r "Foo" /\ encode_by 1 [] = [] /\ encode_by 1 [[]; s2r "x"] = s2r "X" /\
+  encode_by 3 [[]; []] = s2r "_" /\ decode_by 5 (s2r "foo_") = Ok [s2r "foo"; []] /\
+  pipeline 5 0 0 (s2r "foo_") = Ok [s2r "foo"].
+Proof. repeat split; vm_compute; reflexivity. Qed.
